@@ -37,7 +37,10 @@ def template_kind(v: ast.expr) -> Tuple[str, bool, Optional[ast.expr]]:
     if isinstance(v, ast.Name):
         return v.id, False, None
     if isinstance(v, ast.Constant):
-        return type(v.value).__name__, True, v          # a constant template is its own default
+        # confuse.as_template: a literal is its own default, and an int literal (True/False are ints) becomes Integer(default),
+        # a float literal Number(default), a str literal String(default)
+        kind = "int" if isinstance(v.value, int) else "number" if isinstance(v.value, float) else type(v.value).__name__
+        return kind, True, v
     if isinstance(v, ast.Call):
         nm = call_name(v).split(".")[-1]
         if nm == "Optional":
@@ -62,19 +65,12 @@ def template_kind(v: ast.expr) -> Tuple[str, bool, Optional[ast.expr]]:
 YAML_TYPES = {"bool": bool, "str": str, "strseq": list, "list": list, "dict": dict, "filename": str, "int": int}
 
 
-def run(rep: Report, repo: Repo, tier: str) -> None:
-    import yaml
-    rep.unit("src/cminx/__init__.py", "src/cminx/config.py", "src/cminx/config_default.yaml")
-    rep.assume("confuse: Configuration.set()/set_file()/set_args() insert a source with highest priority, so the later call "
-               "wins; set_args drops None values; all_contents() concatenates over all sources; user config and packaged "
-               "defaults are added below; get(template) rejects values of the wrong type",
-               "confuse.Filename(cwd=...) / Filename(in_source_dir=True) resolve relative paths as named")
+def rule_source_order(rep: Report, repo: Repo, rule: str) -> str:
     main = repo.func(MOD, "main")
     m = repo.module(MOD)
     where = f"{MOD}:main"
-
     # ---- R1 order
-    rep.rule("C16-R1", "Configuration() -> set_file (if -s) -> set_args -> get(template); nothing is set afterwards")
+    rep.rule(rule, "Configuration() -> set_file (if -s) -> set_args -> get(template); nothing is set afterwards")
     order: List[Tuple[int, str, ast.Call]] = []
     cfg_var = None
     for i, st in enumerate(main.body):
@@ -91,41 +87,57 @@ def run(rep: Report, repo: Repo, tier: str) -> None:
     idx = {}
     for i, k, c in order:
         idx.setdefault(k, []).append(i)
-    rep.check("set_args" in idx and "get" in idx, "C16-R1", where, "set_args and get(template) are called",
+    rep.check("set_args" in idx and "get" in idx, rule, where, "set_args and get(template) are called",
               "command-line values are never merged into the configuration", witness="cminx -r dir")
     if "set_args" in idx and "get" in idx:
         sa, g = min(idx["set_args"]), min(idx["get"])
-        rep.check(sa < g, "C16-R1", where, "set_args precedes get(template)",
+        rep.check(sa < g, rule, where, "set_args precedes get(template)",
                   "the configuration is validated before the command-line arguments are applied: flags are ignored",
                   witness="cminx -o out x.cmake")
         if "set_file" in idx:
             sf = min(idx["set_file"])
-            rep.check(sf < sa, "C16-R1", where, "set_file precedes set_args",
+            rep.check(sf < sa, rule, where, "set_file precedes set_args",
                       "the -s file is layered above the command line: a flag no longer overrides the file",
                       witness="-s file with recursive: false plus -r")
         else:
-            rep.bad("C16-R1", where, "set_file(args.settings)", "the -s file is never loaded", witness="cminx -s conf.yaml x.cmake")
+            rep.bad(rule, where, "set_file(args.settings)", "the -s file is never loaded", witness="cminx -s conf.yaml x.cmake")
         for k in ("set", "add", "set_env", "clear", "read", "set_file", "set_args"):
             for i in idx.get(k, []):
                 if i > g:
-                    rep.bad("C16-R1", where, f"{cfg_var}.{k}(...) after get(template)",
+                    rep.bad(rule, where, f"{cfg_var}.{k}(...) after get(template)",
                             "a source is added after the settings were read: it has no effect, or shadows validated values")
     for i, k, c in order:
         if k == "set_args":
             dots = next((kw.value for kw in c.keywords if kw.arg == "dots"), None)
-            rep.check(isinstance(dots, ast.Constant) and dots.value is True, "C16-R1", where, norm(c),
+            rep.check(isinstance(dots, ast.Constant) and dots.value is True, rule, where, norm(c),
                       "set_args is called without dots=True: dotted destinations such as 'output.directory' are stored as flat keys "
                       "and never override anything", witness="cminx -o out x.cmake")
             parsed = {norm(st_.targets[0]) for st_ in main.body if isinstance(st_, ast.Assign) and isinstance(st_.value, ast.Call)
                       and isinstance(st_.value.func, ast.Attribute) and st_.value.func.attr in ("parse_args", "parse_known_args")}
-            rep.check(bool(c.args) and norm(c.args[0]) in parsed, "C16-R1", where, f"set_args({norm(c.args[0]) if c.args else ''}, ...)",
+            rep.check(bool(c.args) and norm(c.args[0]) in parsed, rule, where, f"set_args({norm(c.args[0]) if c.args else ''}, ...)",
                       "set_args does not receive the namespace returned by parse_args")
         if k == "set_file":
             gs = guards_of(main, c, m.parents)
             ok = any(".settings" in norm(g_.test) for g_ in gs)
-            rep.check(ok and c.args and ".settings" in norm(c.args[0]), "C16-R1", where, norm(c)[:70],
+            rep.check(ok and c.args and ".settings" in norm(c.args[0]), rule, where, norm(c)[:70],
                       "set_file is not driven by the -s argument")
-    rep.floor("C16-R1", 5, "source-stacking facts")
+    rep.floor(rule, 5, "source-stacking facts")
+    return cfg_var
+
+
+
+def run(rep: Report, repo: Repo, tier: str) -> None:
+    import yaml
+    rep.unit("src/cminx/__init__.py", "src/cminx/config.py", "src/cminx/config_default.yaml")
+    rep.assume("confuse: Configuration.set()/set_file()/set_args() insert a source with highest priority, so the later call "
+               "wins; set_args drops None values; all_contents() concatenates over all sources; user config and packaged "
+               "defaults are added below; get(template) rejects values of the wrong type",
+               "confuse.Filename(cwd=...) / Filename(in_source_dir=True) resolve relative paths as named")
+    main = repo.func(MOD, "main")
+    m = repo.module(MOD)
+    where = f"{MOD}:main"
+
+    cfg_var = rule_source_order(rep, repo, "C16-R1")
 
     # ---- R2 CLI table
     rep.rule("C16-R2", "dotted argparse destinations are exactly paths of the template and default to None (also store_true)")
@@ -215,6 +227,9 @@ def run(rep: Report, repo: Repo, tier: str) -> None:
             ann = fields[key].annotation
             if ok and kind == "bool" and ann != "bool":
                 ok, msg = False, f"dataclass field {cls}.{key} is annotated {ann}, template says bool"
+            if ok and ann == "bool" and kind != "bool":
+                ok, msg = False, (f"the template validates the boolean option '{sec}.{key}' as {kind}: a value of another type "
+                                  f"(a number) passes validation and is silently converted instead of being rejected")
             rep.check(ok, "C16-R3", "cminx.config", f"{sec}.{key}: template={kind}{'?' if optional else ''} field={ann} yaml={yk.get(key)!r}"[:110],
                       msg)
     rep.floor("C16-R3", 25, "option triples")
